@@ -114,6 +114,15 @@ def step (s : State) (args : List String) : State × String :=
     match parseTarget t with
     | some t => fin (gated s t sender)
     | none => (s, "bad-op")
+  -- the same gated message WITHOUT its optional payload (it passes ValidateBasic): the gate comes first — refused like any other for
+  -- a sender without permission — and with permission there is nothing to apply: an invalid request, nothing written
+  | ["gatednil", t, sender] =>
+    match parseTarget t with
+    | some t =>
+      match (gated s t sender).2 with
+      | none => (s, "invalid " ++ render s)
+      | some e => (s, e.render ++ " " ++ render s)
+    | none => (s, "bad-op")
   | _ => (s, "bad-op")
 
 end Nibiru.Sudo
